@@ -37,4 +37,4 @@ def jobs(tier):
     return out
 
 
-META = {'functions': [], 'undecided_part': '', 'trusted_base': ['trampoline and interface-cache models in harness/c05_call.c', 'models/alloc.h (scratch arrays: reallocated contents are unconstrained)']}
+META = {'functions': ['call (mir-interp.c)', 'ff_interface_eq'], 'undecided_part': '', 'trusted_base': ['trampoline and interface-cache models in harness/c05_call.c', 'models/alloc.h (scratch arrays: reallocated contents are unconstrained)']}
